@@ -38,6 +38,35 @@ TYPE_BASES = [
     "Terminal",
     "GeometricCellQuantity",
     "GeometricFacetQuantity",
+    "Jacobian",
+    "FacetNormal",
+    "CellVolume",
+    "SpatialCoordinate",
+]
+CONCRETE_GEO = ["Jacobian", "JacobianInverse", "JacobianDeterminant", "FacetNormal", "CellVolume", "FacetArea", "SpatialCoordinate", "Circumradius"]
+REAL_INSTANCES = [
+    "GeometryLoweringApplier",
+    "GeometryLoweringApplier",
+    "GeometryLoweringApplier-preserve",
+    "IndexRelabeller",
+    "ComplexNodeRemoval",
+    "LowerCompoundAlgebra",
+    "ChangeToReferenceGrad",
+    "TerminalStripper",
+    "Replacer",
+    "CheckComparisons",
+    "FunctionPullbackApplier",
+    "SumDegreeEstimator",
+    "RestrictionChecker",
+    "RestrictionPropagator",
+    "ArityChecker",
+    "ReuseTransformer",
+    "CopyTransformer",
+    "VariableStripper",
+    "IndexExpander",
+    "GradRuleset",
+    "ReferenceGradRuleset",
+    "Expression2UnicodeHandler",
 ]
 OLD_HANDLERS = [
     "expr",
@@ -123,10 +152,13 @@ class C20(Scenario):
             "defalg": 2,
             "mkalg": 3,
             "apply": 6,
-            "applyreal": 2 if arm != "real-algs" else 8,
+            "applyreal": 2 if arm != "real-algs" else 6,
+            "mkreal": 1 if arm != "real-algs" else 3,
+            "applyinst": 1 if arm != "real-algs" else 7,
         }
         if arm == "real-algs":
             w["apply"] = 2
+        reals = []
         kinds = list(w)
 
         def kind_of(base):
@@ -134,6 +166,8 @@ class C20(Scenario):
                 for t in types:
                     if t[0] == base[1]:
                         return t[4]
+            if base in CONCRETE_GEO:
+                return "geo"
             return {
                 "Operator": "op",
                 "MathFunction": "math",
@@ -171,6 +205,8 @@ class C20(Scenario):
                 name = f"New{tnum}"
                 if types and rng.random() < (0.3 if arm != "late-family" else 0.7):
                     base = ["$", (types[-1] if arm == "late-family" and rng.random() < 0.7 else rng.choice(types))[0]]
+                elif arm == "real-algs" and rng.random() < 0.5:
+                    base = rng.choice(CONCRETE_GEO)
                 else:
                     base = rng.choice(TYPE_BASES)
                 abstract = rng.random() < 0.15
@@ -272,6 +308,17 @@ class C20(Scenario):
                 pool = [e[0] for e in exprs] * 4 + KIT_ALL
                 e = rng.choice(pool)
                 units.append({"n": 0, "k": "applyreal", "op": ["applyreal", None, rng.choice(REAL_ALGS), e]})
+            elif k == "mkreal":
+                if len(reals) >= 6:
+                    continue
+                units.append({"n": 0, "k": "mkreal", "op": ["mkreal", next_a, rng.choice(REAL_INSTANCES)]})
+                reals.append(next_a)
+                next_a += 1
+            elif k == "applyinst":
+                if not reals:
+                    continue
+                pool = [e[0] for e in exprs] * 4 + KIT_ALL
+                units.append({"n": 0, "k": "applyinst", "op": ["applyinst", None, rng.choice(reals), rng.choice(pool)]})
         return {"nodes": [{"salt": salt, "init": KIT}, {"salt": salt, "init": KIT}], "units": units}
 
     # -- expansion: node 0 = as scheduled; node 1 = twin with all registrations first, no faults
@@ -311,6 +358,8 @@ class C20(Scenario):
             "handler_declared_before_type_registered": 0,
             "interrupt_landed_in_first_instantiation": 0,
             "apply_total": 0,
+            "real_instance_applied": 0,
+            "late_type_met_by_preexisting_real_instance": 0,
         }
         # when was each type registered / each class first instantiated / each instance made
         reg_at = {}
@@ -319,8 +368,13 @@ class C20(Scenario):
         expr_types = {}
         cls_of = {}
         cls_handlers = {}
+        real_at = {}
+        real_name = {}
         for ui, u in enumerate(units):
             op = u["op"]
+            if u["k"] == "mkreal":
+                real_at[op[1]] = ui
+                real_name[op[1]] = op[2]
             if u["k"] == "regtype":
                 reg_at[op[1]] = ui
                 if op[2].lower() in {h for hs in cls_handlers.values() for h in hs}:
@@ -369,7 +423,7 @@ class C20(Scenario):
                 expr_types[op[1]] = ts
         nontrivial = False
         for ui, u in enumerate(units):
-            if u["k"] not in ("apply", "applyreal"):
+            if u["k"] not in ("apply", "applyreal", "applyinst"):
                 continue
             rm = main.get(ui)
             rt = twin.get(ui)
@@ -425,14 +479,18 @@ class C20(Scenario):
                 if ets:
                     nontrivial = True
                     probes["apply_after_late_registration"] += 1
+                if u["k"] == "applyinst":
+                    probes["real_instance_applied"] = probes.get("real_instance_applied", 0) + 1
+                    if [t for t in ets if reg_at.get(t, -1) > real_at.get(op[2], 10**9)]:
+                        probes["late_type_met_by_preexisting_real_instance"] = probes.get("late_type_met_by_preexisting_real_instance", 0) + 1
                 vm = rm.get("ok")
                 if isinstance(vm, str) and vm == "!DispatchError":
                     viols.append(
                         {
                             "clause": "D1-dispatch-error",
                             "unit": ui,
-                            "detail": {"alg": op[2], "main": vm},
-                            "fingerprint": "real-alg",
+                            "detail": {"alg": real_name.get(op[2], op[2]), "main": vm},
+                            "fingerprint": "real-alg" if u["k"] == "applyreal" else "real-instance",
                         }
                     )
                 elif rm != rt:
@@ -440,8 +498,8 @@ class C20(Scenario):
                         {
                             "clause": "D2-twin",
                             "unit": ui,
-                            "detail": {"alg": op[2], "main": _short(rm), "twin": _short(rt)},
-                            "fingerprint": "real-alg",
+                            "detail": {"alg": real_name.get(op[2], op[2]), "main": _short(rm), "twin": _short(rt)},
+                            "fingerprint": "real-alg" if u["k"] == "applyreal" else "real-instance",
                         }
                     )
         state = {
